@@ -157,7 +157,7 @@ func runProperty(p *Program, id, tier, work string, keep bool) int {
 			var keep []*Obligation
 			for _, o := range u.gen.Obls {
 				switch o.Kind {
-				case "callsite", "ensures", "invariant-entry", "invariant-preserved", "exit", "dyncall", "nonblocking", "immutable":
+				case "callsite", "ensures", "invariant-entry", "invariant-preserved", "loop-exit", "dyncall", "nonblocking", "immutable":
 					keep = append(keep, o)
 				default:
 					unclaimed[u.Unit]++
